@@ -15,11 +15,12 @@ import SRVerif.Driver.C13
 import SRVerif.Driver.C15
 import SRVerif.Driver.C11
 import SRVerif.Driver.C12
+import SRVerif.Driver.C05Any
 
 open Lean SR.Drv
 
 def allHandlers : List (String × Handler) :=
-  C16.handlers ++ C18.handlers ++ Solve.handlers ++ C17.handlers ++ C19.handlers ++ C06.handlers ++ C20.handlers ++ C08.handlers ++ C13.handlers ++ C15.handlers ++ C11.handlers ++ C12.handlers
+  C16.handlers ++ C18.handlers ++ Solve.handlers ++ C17.handlers ++ C19.handlers ++ C06.handlers ++ C20.handlers ++ C08.handlers ++ C13.handlers ++ C15.handlers ++ C11.handlers ++ C12.handlers ++ C05Any.handlers
 
 def handleLine (line : String) : String :=
   match Json.parse line with
